@@ -90,6 +90,12 @@ CHECKS = {
   text="Node-set kernel: over a pool of 3 nodes whose order keys are symbolic, pairwise distinct, non-zero 64-bit values, z3 decides for every shape in the bounds that (union) the union of 1-3 document-ordered duplicate-free operand lists holds exactly the operands' nodes, each once, in strictly increasing key order - so A|B = B|A, A|A = A, count(A|B) <= count(A)+count(B); (paths) eval_filtered_loc_expr returns the step results of 1-2/3 context nodes (any order, duplicates) in non-decreasing key order with the same nodes; (filter) (E)[position()=t] selects the t-th node of the primary's list for any 64-bit t, i.e. positional filters on a parenthesised node-set count in the order `union` established.",
   note="Partial: which nodes an axis or node test selects is C05 (not applicable); that order keys follow document order is C14, that every node kind reports its key is C06.s.siblings. Sub-evaluators and XmlNode::order are stubs (listed in the evidence). Pool of 3 nodes, operand lists <= 2/3 nodes.",
   design="4/C07", engine="S-kernel"),
+ "C10": dict(
+  technique="source-level symbolic execution (S-kernel) of info XmlElement::in_scope_namespace / namespaces over a chain of elements, dom AsExpandedName for XmlElement / XmlAttr, and eval::equal_qname with model::Context::expanded_name, all names and URIs symbolic + SMT (z3); witnesses confirmed by probe queries on real documents",
+  category="model_checking",
+  text="Namespace kernel: (scope) on chains document -> e1 -> .. -> ed, d <= 2 (quick) / 3 (thorough), with 0-2 declarations per element whose prefix (none or one symbolic character) and URI (empty or one symbolic character) are symbolic, z3 decides that in_scope_namespace of the innermost element holds exactly: for every prefix the nearest enclosing declaration, none when that declaration has an empty URI, and the xml binding; (expanded) over in-scope sets of 0-2 symbolic bindings a prefixed element or attribute name takes the URI bound to its prefix, an unprefixed element the default namespace, an unprefixed attribute NO namespace; (name-test) equal_qname keeps a node iff local parts and namespace URIs are equal under the caller's 0-2 symbolic prefix bindings, and an unbound prefix in the expression is an error - so consistent renaming of prefixes changes nothing.",
+  note="Partial: one-character names (comparisons are per character), no declared prefix equal to the literals xml / xmlns, no default binding in the caller's context; namespace nodes as results of the namespace axis, prefix renaming over whole documents and the grammar's recognition of xmlns attributes (C01/C02) are outside. normalized_value, owner_element, Context::node and the dom-level in_scope_namespace (inside `expanded`) are stubs.",
+  design="4/C10", engine="S-kernel"),
  "C05": dict(
   technique="source-level symbolic execution (S-kernel) of eval_axis_node_test / eval_node_test with the real dom node_type / node_name dispatch and stubs for the axis functions + SMT (z3); witnesses confirmed by probe queries on a real document",
   category="model_checking",
@@ -111,7 +117,6 @@ CHECKS = {
 }
 
 NA = {
- "C10": "namespace scoping (in_scope_namespace, find_nameapce_uri, as_expanded_name) recurses over parent links of the item graph; only the grammar's recognition of xmlns / xmlns:p attribute names is within reach and is decided inside C01/C02.",
  "C17": "whole-program runs of the xe/xq binaries over process I/O, composing parser, evaluator, DOM mutation and printer: outside bounded symbolic execution of the code by either engine.",
 }
 DEFAULT_NA = "check not built yet (construction in progress)"
@@ -123,7 +128,7 @@ m = {
            "baseline_off_cmd": "cd /repo && cargo test --workspace --no-fail-fast --offline", "source_commits": ["1af260d"], "add_only": True},
  "engines": [
   {"name": "S-grammar", "path": "engine/sx/nomsem.py", "serves_properties": ["C01", "C02", "C03", "C06", "C08", "C18"], "kind_free_text": "symbolic executor for the nom grammars read from /repo via engine/srcdump (syn); z3 QF_BV"},
-  {"name": "S-kernel", "path": "engine/sx/kernel.py", "serves_properties": ["C01", "C04", "C05", "C06", "C07", "C09", "C11", "C12", "C13", "C14", "C15", "C16", "C19"], "kind_free_text": "path-enumerating symbolic interpreter for small Rust functions read from the syn dump (engine/sx/kstd.py = std models); z3"},
+  {"name": "S-kernel", "path": "engine/sx/kernel.py", "serves_properties": ["C01", "C04", "C05", "C06", "C07", "C09", "C10", "C11", "C12", "C13", "C14", "C15", "C16", "C19"], "kind_free_text": "path-enumerating symbolic interpreter for small Rust functions read from the syn dump (engine/sx/kstd.py = std models); z3"},
   {"name": "Kani", "path": "kani/", "serves_properties": ["C18"], "kind_free_text": "Kani 0.68 / CBMC 6.11 harness crate with path dependencies on /repo crates"},
   {"name": "replay", "path": "replay/", "serves_properties": ["C01", "C02"], "kind_free_text": "Rust driver with path dependencies on /repo crates: replays solver models and validates the translator"},
  ],
